@@ -93,7 +93,7 @@ thread_local! {
 
 fn rel(reliable: bool) -> policy::Reliability {
   if reliable {
-    policy::Reliability::Reliable { max_blocking_time: crate::Duration::from_millis(50) }
+    policy::Reliability::Reliable { max_blocking_time: crate::Duration::from_millis(2000) }
   } else {
     policy::Reliability::BestEffort
   }
